@@ -336,6 +336,15 @@ def _replay(job, phase):
     phase[0] = 'read'
     ok = m.solution is not None and not (isinstance(m.solution.objval, float) and math.isnan(m.solution.objval))
     out['solver_status'] = str(getattr(m.solution, 'status', None))
+    if not ok and job['solver'] == 'def' and out['solver_status'] == '0' and m.solution is not None and m.solution.x is not None \
+            and np.any(np.isnan(np.asarray(m.solution.x, dtype=float))):
+        # SciPy's HiGHS reported status 0 (optimal) with NaN entries in the solution vector (seen with scipy 1.18.1 on a column with
+        # upper bound 0): an answer of the external solver that cannot be judged - the same model goes to OR-Tools instead
+        out['nan_solution_from'] = 'def'
+        m.solve(solver_by_name('ort'), display=False)
+        out['solver'] = 'ort'
+        ok = m.solution is not None and not (isinstance(m.solution.objval, float) and math.isnan(m.solution.objval))
+        out['solver_status'] = str(getattr(m.solution, 'status', None))
     if ok:
         x, yv, obj, nanpat = read_solution(m, h)
         out.update(status='ok', x=[float(v) for v in x], y=yv, obj=obj, nanpat=nanpat)
